@@ -10,6 +10,14 @@ from eqsig import im
 from eqsig.exceptions import deprecation
 
 
+def _as_record(values):
+    """Own copy of the values; narrow and unsigned integer types are widened so that sums and squares do not wrap around"""
+    values = np.array(values)
+    if values.dtype.kind in 'iu' and values.dtype.itemsize < 8:
+        values = values.astype(np.int64)
+    return values
+
+
 class Signal(object):
     """
     A time series object
@@ -42,7 +50,7 @@ class Signal(object):
                  verbose=0, ccbox=0):
         self.verbose = verbose
         self._dt = dt
-        self._values = np.array(values)
+        self._values = _as_record(values)
         self.label = label
         if smooth_fa_freqs is not None:
             self.smooth_fa_freqs = smooth_fa_freqs
@@ -63,7 +71,7 @@ class Signal(object):
         return ValueError('Cannot directly modify values, use self.reset_values()')
 
     def reset_values(self, new_values):
-        self._values = np.array(new_values)  # own copy, as in the constructor
+        self._values = _as_record(new_values)  # own copy, as in the constructor
         self._npts = len(new_values)
         self.clear_cache()
 
